@@ -122,6 +122,9 @@ def build(a_state, b_set, factor, timing, mtype, second, two_markets):
         hist.append(L.tick(dt, ["IP", {2: 3.1, 3: 5.2}, 1]))
         hist.append(L.tick(dt))
     hist.append(L.tick(dt, ["CL", {2: "WINNER", 3: "LOSER"}]))
+    if timing == "reopened":
+        # the closed market receives data again (re-settlement): the removal must not be applied a second time
+        hist += [L.tick(dt, ["SUS"]), L.tick(dt, ["MD"]), L.tick(dt, ["CL", {2: "WINNER", 3: "LOSER"}])]
     return hist
 
 
@@ -269,7 +272,7 @@ def run(tier):
     for a in A_STATES:
         for b in B_SETS:
             for f in FACTORS:
-                for timing in ("plain", "before-ip", "after-ip", "suspended"):
+                for timing in ("plain", "before-ip", "after-ip", "suspended", "reopened"):
                     if timing == "after-ip" and a in ("pending", "cancelling", "cancelling-part", "updating", "replacing"):
                         continue
                     mts = MTYPES if (thorough or b in ("moc-lay", "moc-lay+matched")) else ("WIN",)
